@@ -598,8 +598,11 @@ class Run:
             wall_s=round(time.time() - self.t0, 2),
             violations=int(violations),
         )
-        os.makedirs(os.path.join(VERIF, "evidence"), exist_ok=True)
-        with open(os.path.join(VERIF, "evidence", "%s.json" % self.prop), "w") as f:
+        # evidence/ is only ever written by runs against /repo itself; a run against a scratch copy carrying a seeded change
+        # (DREYE_REPO, harness/seedscan.sh) leaves its record under replays/ (not committed)
+        evdir = os.path.join(VERIF, "evidence") if os.path.realpath(REPO) == "/repo" else os.path.join(VERIF, "replays", "_scan_evidence")
+        os.makedirs(evdir, exist_ok=True)
+        with open(os.path.join(evdir, "%s.json" % self.prop), "w") as f:
             json.dump(jsonable(ev), f, indent=1)
         for ln in lines:
             print(ln)
